@@ -85,6 +85,10 @@ def ev_call(ex, n, st, spec, b):
             return merge_val(boolify(E(n.args[0])), E(n.args[1]), E(n.args[2]))
         if name == "old":
             return ex.ev(n.args[0], ex.cx.entry if not st.env.get("__old_env__") else st.env["__old_env__"], True, b)
+        if name in ("upper_code", "lower_code"):
+            from .world import UPPER, LOWER
+            ex.cx.need_char_axioms = True
+            return (UPPER if name == "upper_code" else LOWER)(zint(E(n.args[0])))
         if name == "off":
             return E(n.args[0]).off
         if name == "seq_eq":
@@ -322,6 +326,7 @@ def dispatch_split(ex, base, tag, alts, attr, args, kwargs, st, node, spec):
         results.append((cond, r, nb, sub))
     # merge
     res = results[-1][1]
+    any_mod = any(r[2] is not None for r in results)
     nb = results[-1][2] or base
     extra = [z3.Implies(results[-1][0], z3.And(*results[-1][3].pc[len(st.pc) + 1:])) if len(results[-1][3].pc) > len(st.pc) + 1 else z3.BoolVal(True)]
     for cond, r, n2, sub in reversed(results[:-1]):
@@ -332,7 +337,7 @@ def dispatch_split(ex, base, tag, alts, attr, args, kwargs, st, node, spec):
             extra.append(z3.Implies(cond, z3.And(*suf)))
     st.pc.append(z3.Or(*[c for c, _, _, _ in results]))
     st.pc += extra
-    return res, nb
+    return res, (nb if any_mod else None)
 
 
 def inline_function(ex, fnode, selfv, args, kwargs, st, node, spec, name="?", cls=None):
@@ -428,6 +433,10 @@ def apply_contract(ex, c, selfv, args, kwargs, st, node, spec):
                 raise Unsupported(f"missing argument {p} for contract {c.name}")
     for p_, v_ in list(bound.items()):
         t_ = c.params.get(p_)
+        if isinstance(v_, ListV) and isinstance(t_, api.SeqT):
+            from . import heap
+            bound[p_] = heap.seq_from_list(v_, t_.elem, st)
+            continue
         if isinstance(v_, Opt) and t_ is not None and not isinstance(t_, api.OptT) and not spec:
             bound[p_] = ex.need_not_none(v_, st, node, f"argument {p_} of {c.name}")
     pre = St(bound, st.pc)
@@ -447,7 +456,7 @@ def apply_contract(ex, c, selfv, args, kwargs, st, node, spec):
     inv = []
     for p in c.modifies:
         if p in post.env:
-            post.env[p] = fresh_like(post.env[p], f"{c.name}.{p}'")
+            post.env[p] = fresh_like(post.env[p], f"{c.name}.{p}.post")
             inv += shape_invariants(post.env[p])
     result = None
     if c.ret is not None:
